@@ -717,6 +717,14 @@ package lnwire
 //@   bounds-safe
 //@   site store TCPAddr.IP as each-address-owns-its-bytes: assert iterfresh(value)
 //@
+//@ // ---- messages that keep their TLV extension in an ExtraOpaqueData field rebuild it, on every Encode, from the records they know.
+//@ // ---- Records they do NOT know ("it's ok to be odd") have to be carried over: the records already in the field are parsed and merged
+//@ // ---- before the field is overwritten (finding F27: they are not - PackRecords replaces the field, so decode -> encode drops them
+//@ // ---- and a relayed channel_update no longer carries the bytes its sender signed)
+//@ func EncodeMessageExtraData
+//@   props C10
+//@   site call PackRecords as unknown-records-carried-over: assert called(RecordProducers)
+//@
 //@ // ==== BEGIN generated per-message layout contracts (tools/layout_gen.py; table: /verif/tools/bolt_layouts.json) ====
 //@ // each row of the table is one obligation per direction; a message whose code stops following its BOLT layout
 //@ // (a field moved, dropped, written with the writer of another width, or read into another field) fails the row
